@@ -304,6 +304,9 @@ func runC14Inner(c *C14Case) (res c14Result) { //nolint:cyclop,gocyclo,maintidx
 	relayAddr := relay.LocalAddr().(*net.UDPAddr) //nolint:forcetypeassert
 	fail := func(kind, f string, a ...any) *c14Result {
 		r := &c14Result{kind: kind, msg: fmt.Sprintf("at %v of protocol time: ", time.Since(start).Round(time.Millisecond)) + fmt.Sprintf(f, a...) + "\n  log tail:\n    " + strings.Join(tail(logger.Lines(), 14), "\n    ")}
+		if f := os.Getenv("VERIF_C14_LOGFILE"); f != "" && os.Getenv("VERIF_C14_LOG") != "" {
+			_ = os.WriteFile(f, []byte(strings.Join(logger.Lines(), "\n")), 0o600)
+		}
 		_ = relay.Close()
 		teardown()
 		<-done
@@ -603,6 +606,11 @@ func genC14(rt *rapid.T, maxHours int) *C14Case {
 			c.Segs[i+1].GapS = rapid.SampledFrom([]int{200, 301, 310, 330, 400, 599}).Draw(rt, "afterHorizonGap")
 			c.Segs[i+1].PeerFirst = true
 			c.Sibling = true
+			if rapid.IntRange(0, 2).Draw(rt, "reallocAtHorizon") == 0 {
+				// the application closes the socket and allocates again right after the burst at
+				// the horizon, while transactions that met the stale nonce are still being redone
+				c.Segs[i+1].Realloc = true
+			}
 
 			break
 		}
@@ -713,8 +721,16 @@ func TestC14(t *testing.T) {
 		if err := vkit.LoadJSON(f, &c); err != nil {
 			t.Fatalf("bad regress file %s: %v", f, err)
 		}
-		if kind, msg := do(&c, ""); kind != "" {
-			r.Violate(kind, "regress "+f+": "+msg, &c)
+		reps := 1
+		if strings.Contains(f, "sched-") {
+			reps = 6 // the outcome depends on the order of goroutines woken at the same instant
+		}
+		for i := 0; i < reps; i++ {
+			if kind, msg := do(&c, ""); kind != "" {
+				r.Violate(kind, "regress "+f+": "+msg, &c)
+
+				break
+			}
 		}
 	}
 	if r.Violations() > 0 {
